@@ -2,7 +2,7 @@
 
 CHECKS = {
     "C01": dict(
-        level_text="Exploration by runtime monitoring: thousands of generated small programs are executed on the real happylock API over auditing raw locks under a seeded serialising scheduler (random and priority-based strategies, both rwlock wake policies); a deadlock is decided exactly (no eligible thread while some are unfinished, or a self-wait), never by timeout. Unbounded completion is restated as bounded progress under a fair completion phase.",
+        level_text="Exploration by runtime monitoring: thousands of generated small programs are executed on the real happylock API over auditing raw locks under a seeded serialising scheduler (random and priority-based strategies, both rwlock wake policies); a deadlock is decided exactly (no eligible thread while some are unfinished, or a self-wait), never by timeout. Unbounded completion is restated as bounded progress under a fair completion phase. The same episodes are also run with one clean raw-lock panic injected (a lock killed while held / while others are parked on it): they must still complete.",
         design_ref="DESIGN.md §3 C01, §2.3",
         level_note="Trusted: audit lock + scheduler (world.rs), Member/Lk adapters. Holds only for the programs and schedules produced (counts in evidence).",
         technique="runtime monitoring: wait-for/deadlock monitor over audit raw locks under a seeded serialising scheduler",
@@ -47,13 +47,13 @@ CHECKS.update({
         technique="runtime monitoring: reference-model (multiset oracle) comparison over generated member lists",
     ),
     "C08": dict(
-        level_text="Exploration by runtime monitoring: the blocking acquisition order of every call through a sorting collection is read from the raw-lock log and folded into one precedence relation per universe that must stay antisymmetric (no assumption that the order is by address); owned units must stay contiguous.",
+        level_text="Exploration by runtime monitoring: the blocking acquisition order of every call through a sorting collection is read from the raw-lock log and folded into one precedence relation per universe that must stay antisymmetric (no assumption that the order is by address; a lock given back and re-taken inside a call counts from its last acquisition, so a back-off that re-takes lower locks while holding a higher one is an inversion); owned units must stay contiguous.",
         design_ref="DESIGN.md §3 C08",
         level_note="Trusted: raw-lock event log order. Holds for the universes/arrangements produced.",
         technique="runtime monitoring: precedence-relation (ordering) checker over the raw-lock event log",
     ),
     "C09": dict(
-        level_text="Exploration by runtime monitoring: every blocking raw operation issued inside a retrying-collection acquisition is checked at issue time - exact in the serialised scheduler - for 'not grantable while the caller holds a lock of another group' (an owned unit nested in the collection counts as one lock, as designed); completion is bounded progress: the episode must finish within the fair run-to-block phase after the random phase.",
+        level_text="Exploration by runtime monitoring: every blocking raw operation issued inside a retrying-collection acquisition is checked at issue time - exact in the serialised scheduler - for 'not grantable while the caller holds a lock of another group' (an owned unit nested in the collection counts as one lock, as designed; retrying collections are also exercised wrapped in a Poisonable); completion is bounded progress: the episode must finish within the fair run-to-block phase after the random phase.",
         design_ref="DESIGN.md §3 C09",
         level_note="Trusted: audit lock grantability at issue time, scheduler. Owned units are treated as one lock (happylock blocks member by member inside a unit by design).",
         technique="runtime monitoring: wait-while-holding detector on raw-lock events under a seeded scheduler + bounded-progress check",
@@ -77,27 +77,27 @@ CHECKS.update({
         technique="runtime monitoring with fault injection in auditing raw locks: exhaustive fault-position enumeration per case",
     ),
     "C13": dict(
-        level_text="Exhaustive enumeration at runtime of the finite quiescent space: every shape of sizes 0..3 (0..4 thorough) x every assignment of {free, read-held, write-held} x try_lock/try_read x try/scoped_try x both wake policies; outcome compared with TryOracle, owner table compared before/after.",
+        level_text="Exhaustive enumeration at runtime of the finite quiescent space (plus a static catalogue that includes collections used while empty and then grown / shrunk through Extend, child_mut and AsMut): every shape of sizes 0..3 (0..4 thorough) x every assignment of {free, read-held, write-held} x try_lock/try_read x try/scoped_try x both wake policies; outcome compared with TryOracle, owner table compared before/after.",
         design_ref="DESIGN.md §3 C13",
         level_note="Holders are phantom owners placed directly in the audit lock table (observationally identical for try-operations, which consult only the raw lock).",
         technique="runtime monitoring: exhaustive enumeration against a reference oracle over audit raw locks",
     ),
     "C14": dict(
-        level_text="Other (compile-gated execution): one minimal offending program per escape route (190 routes: 50 hand-written escape shapes, including by-value consumption of collection guards, plus the cross product of every key-taking method of the 8 lock / wrapper / collection types with `()`, `&key` and - for guard APIs - `&mut key` in the key position), each with a compiling and running twin; rustc against the rlib built from the current tree decides; accepted offending programs are executed and must show their own harm. Plus run-time probes of which types implement Keyable (and that no key-carrying guard is Clone, Copy, Default, IntoIterator by value, or Send with a GuardSend raw lock), and the C06 KeyModel histories as run-time evidence on the accepted surface. Two routes are open on the current tree and recorded as known finding D2; defect D10 (second key after a refused get) was found by the KeyModel and repaired.",
+        level_text="Other (compile-gated execution): one minimal offending program per escape route (202 routes: 62 hand-written escape shapes, including by-value consumption of collection guards and every unsafe-only entry point that bypasses the key, plus the cross product of every key-taking method of the 8 lock / wrapper / collection types with `()`, `&key` and - for guard APIs - `&mut key` in the key position), each with a compiling and running twin; rustc against the rlib built from the current tree decides; accepted offending programs are executed and must show their own harm. Plus run-time probes of which types implement Keyable (and that no key-carrying guard is Clone, Copy, Default, IntoIterator by value, or Send with a GuardSend raw lock), and the C06 KeyModel histories as run-time evidence on the accepted surface. Two routes are open on the current tree and recorded as known finding D2; defect D10 (second key after a refused get) was found by the KeyModel and repaired.",
         design_ref="DESIGN.md §3 C14, §2.8",
         level_note="The 'for all programs' quantifier is sampled by a finite corpus of escape shapes; rejection is rustc's observation. Every *violation* this lane reports is backed by an executed witness.",
         technique="compile-gated corpus with executed witnesses + runtime KeyModel monitor",
         engine="compile-gate",
     ),
     "C15": dict(
-        level_text="Other (compile-gated execution + sanitizers): 86 escape routes with twins (hand-written shapes plus, for every scoped method of every lock / wrapper / collection type, return-escape and - for Mutex/RwLock - Cell-capture escape of the closure's reference), the run-time auto-trait matrix (216 probes against std analogues) and the production-lock workload under Miri. Defects D1 (RwLock Sync / RefLockCollection Send bounds) and the Mutex/RwLock half of D3 were found here and repaired; the collection / Poisonable half of D3 is a recorded known finding, listed per call site (23 routes).",
+        level_text="Other (compile-gated execution + sanitizers): 86 escape routes with twins (hand-written shapes plus, for every scoped method of every lock / wrapper / collection type, return-escape and - for Mutex/RwLock - Cell-capture escape of the closure's reference), the run-time auto-trait matrix (216 probes against std analogues) with marker-trait and constructor-bound probes (OwnedLockable; Default / FromIterator / Extend / From of collections over references) and the production-lock workload under Miri. Defects D1 (RwLock Sync / RefLockCollection Send bounds) and the Mutex/RwLock half of D3 were found here and repaired; the collection / Poisonable half of D3 is a recorded known finding, listed per call site (23 routes).",
         design_ref="DESIGN.md §3 C15, §2.8",
         level_note="Finite corpus of escape shapes; rustc decides acceptance; Miri / native self-checks provide witnesses for accepted programs.",
         technique="compile-gated corpus with executed witnesses, run-time auto-trait matrix vs std, Miri on production locks",
         engine="compile-gate",
     ),
     "C16": dict(
-        level_text="Exploration by runtime monitoring + sanitizers: drop-counting tokens (table id -> drops, no addresses remembered) through every construction/destruction path of every collection kind and container shape, values written under a lock and compared positionally after extraction; the same workload runs under Miri (leak check on, double free / use-after-free / uninit reads are UB reports) and, in the thorough tier, under valgrind memcheck. Each sanitizer lane first has to flag a canary.",
+        level_text="Exploration by runtime monitoring + sanitizers: drop-counting tokens (table id -> drops, no addresses remembered) through every construction/destruction path of every collection kind and container shape, values written under a lock and compared positionally after extraction, also when a member lock has been killed (RawLock::poison) before the container is consumed; the same workload runs under Miri (leak check on, double free / use-after-free / uninit reads are UB reports) and, in the thorough tier, under valgrind memcheck. Each sanitizer lane first has to flag a canary.",
         design_ref="DESIGN.md §3 C16",
         level_note="Trusted: token table; Miri / memcheck as oracles for leaks and invalid frees. Guards that own heap memory are not forgotten under the leak detectors (that leak would be the test's own).",
         technique="runtime monitoring: exactly-once drop accounting + Miri / valgrind memcheck on the same workload",
